@@ -579,7 +579,7 @@ pub fn run_rsbdd(dir: &Path, inv: &Invocation) -> Spawned {
     };
     cmd.current_dir(dir)
         .env_clear()
-        .env("PATH", "/usr/bin:/bin")
+        .env("PATH", format!("{}/bin:/usr/bin:/bin", dir.display()))
         .env("RSBDD_VERIF_BUDGET", CHILD_BUDGET.to_string())
         .stdout(Stdio::piped())
         .stderr(Stdio::piped());
@@ -1364,6 +1364,11 @@ pub struct RobustPlan {
     pub dot: bool,
     pub parsetree: bool,
     pub fs_fault: Option<FsFault>,
+    /// `-g` (plot the run times through gnuplot): 0 = not given; 1 = given, no gnuplot on PATH;
+    /// 2 = a stand-in gnuplot that reads its input; 3 = one that exits at once without reading
+    /// (the tool writes into a closed pipe); 4 = one that reads and exits with status 3
+    #[serde(default)]
+    pub plot: u8,
 }
 
 pub fn gen_robust_plan(rng: &mut Prng) -> RobustPlan {
@@ -1459,6 +1464,7 @@ pub fn gen_robust_plan(rng: &mut Prng) -> RobustPlan {
         dot: rng.chance(1, 3),
         parsetree: rng.chance(1, 4),
         fs_fault,
+        plot: if rng.chance(1, 8) { rng.range(1, 4) as u8 } else { 0 },
     }
 }
 
@@ -1486,6 +1492,28 @@ pub fn execute_robust(p: &RobustPlan) -> RunOutcome {
     if let Some(n) = p.b {
         args.push("-b".into());
         args.push(n.to_string());
+    }
+    if p.plot > 0 {
+        args.push("-g".into());
+        if p.b.is_none() {
+            // the plot is only drawn for a benchmark run
+            args.push("-b".into());
+            args.push(((bytes.len() % 3) + 1).to_string());
+        }
+        bump(&mut stats, &format!("fault.gnuplot-{}", ["", "missing", "reads", "exits-at-once", "fails"][p.plot.min(4) as usize]));
+        if p.plot >= 2 {
+            use std::os::unix::fs::PermissionsExt;
+            let bin = dir.join("bin");
+            let _ = std::fs::create_dir_all(&bin);
+            let script = match p.plot {
+                2 => "#!/bin/sh\ncat >/dev/null\n",
+                3 => "#!/bin/sh\nexit 0\n",
+                _ => "#!/bin/sh\ncat >/dev/null\nexit 3\n",
+            };
+            let g = bin.join("gnuplot");
+            std::fs::write(&g, script).expect("tmpfs write");
+            let _ = std::fs::set_permissions(&g, std::fs::Permissions::from_mode(0o755));
+        }
     }
     if let Some(f) = &p.filter {
         args.push(format!("--filter={f}"));
@@ -1625,8 +1653,16 @@ pub fn execute_robust(p: &RobustPlan) -> RunOutcome {
     }
     let _ = std::fs::remove_dir_all(&dir);
     out.nontrivial = !fired.is_empty() || fault.is_some();
-    out.trace_digest = mix(&[code.unwrap_or(-1) as u64, digest_bytes(&sp.stdout)]);
-    out.state_digests.push(mix(&[code.unwrap_or(-1) as u64, digest_bytes(&sp.stdout)]));
+    if p.plot == 3 {
+        // whether the tool's write into the pipe of a gnuplot that exits at once fails is a race the
+        // simulator does not decide: only "panicked or not" is judged and recorded for such a run
+        let crashed = sp.signal || code == Some(101) || code.is_none();
+        out.trace_digest = mix(&[3, crashed as u64]);
+        out.state_digests.push(mix(&[3, crashed as u64]));
+    } else {
+        out.trace_digest = mix(&[code.unwrap_or(-1) as u64, digest_bytes(&sp.stdout)]);
+        out.state_digests.push(mix(&[code.unwrap_or(-1) as u64, digest_bytes(&sp.stdout)]));
+    }
     if judged {
         out.violations = vs;
     } else {
